@@ -605,7 +605,9 @@ func runC15(ctx *Ctx) error {
 	ctx.Res.Rule = "reference graphs over the 8 prunable component kinds, edges placed at every $ref position (see distribution pos:*); " +
 		"exhaustive part: for every (source kind, position, target kind) a root->A chain, a root->A-(pos)->B chain, an orphan A-(pos)->B chain and an orphan 2-cycle; " +
 		"random part: graphs of 2..9 components with random edges; non-trivial = at least one edge; distinct by canonical JSON of the graph"
-	name := func(i int) string { return fmt.Sprintf("C%d", i) }
+	// every later component's name is a proper prefix of every earlier one (Nxxxxxxxxx, Nxxxxxxxx, …, N): a membership test
+	// on references that is not exact (prefix, substring, case) keeps or drops the wrong component
+	name := func(i int) string { return "N" + strings.Repeat("x", 9-i) }
 	rootPosFor := func(kind string) string {
 		for _, p := range c15Positions["root"] {
 			if p.Target == kind {
